@@ -752,7 +752,13 @@ pub fn explore_deviations(ctx: &Ctx, version: u16, thorough: bool) -> E2Stats {
         if version == 3 && (cname == "two-mini" || cname == "three-mixed") {
             bases.push(Layout { extra_fat_sectors: 110, ..base.clone() });
         }
-        for layout in bases {
+        // two and three DIFAT sectors (single deviations only: the pairs are covered on the base above)
+        let n_pair_bases = bases.len();
+        if version == 3 && cname == "two-mini" {
+            bases.push(Layout { extra_fat_sectors: 109 + 128, ..base.clone() });
+            bases.push(Layout { extra_fat_sectors: 109 + 2 * 127 + 3, ..base.clone() });
+        }
+        for (bi, layout) in bases.into_iter().enumerate() {
             let bytes = match synth::synth(&root, &layout) {
                 Ok(b) => b,
                 Err(e) => {
@@ -766,7 +772,7 @@ pub fn explore_deviations(ctx: &Ctx, version: u16, thorough: bool) -> E2Stats {
                 .iter()
                 .map(|(name, patches, smr)| LayoutCase { content: cname.to_string(), layout: layout.clone(), rb_valid: true, ops: vec![], patches: patches.clone(), deviation: name.clone(), strict_must_reject: *smr })
                 .collect();
-            if thorough || lsec <= 6 {
+            if (thorough || lsec <= 6) && bi < n_pair_bases {
                 // all pairs of deviations of different kinds
                 for (i, a) in devs.iter().enumerate() {
                     for b in devs.iter().skip(i + 1) {
